@@ -26,6 +26,17 @@ theorem mac_check_not_under_length_condition_generated :
     PV.Generated.C03.read_mac_guards_are_the_mode_tests = true := by
   decide
 
+/-- what the source MACs (AST of `compute_hmac`, `send_message`, `read_message`, regenerated on every run):
+`compute_hmac` is ONE `HMAC(key, message, digest_class).digest()` over its whole `message` argument, the sender passes
+`seqno ‖ (out | packet)` and both receive paths pass `seqno ‖ packet_size ‖ packet` — the complete packet, never a slice
+or a prefix of it.  This is what `p.mac mk (be32 seq ++ …)` in the model (sender `encrypt`, receiver `readEtm` /
+`readClassic`) stands for, for packets of every length. -/
+theorem mac_covers_whole_packet_generated :
+    PV.Generated.C03.compute_hmac_one_shot_over_whole_message = true ∧
+    PV.Generated.C03.send_mac_input_is_seq_and_whole_packet = true ∧
+    PV.Generated.C03.read_mac_input_is_seq_len_and_whole_packet = true := by
+  decide
+
 /-- **encrypt-then-MAC.** Whatever the bytes `buf` are: if `read_message` delivers, then `buf` starts with
 `hdr ‖ more ‖ tag` where `hdr ‖ more` is the length field and the complete ciphertext body it announces, `tag` has
 the full MAC length and *equals* `mac(key, seq_in ‖ hdr ‖ more)[:macLen]`; the message carries `seq_in`. -/
